@@ -224,10 +224,13 @@ def run_corpus(ctx: Ctx) -> None:
     reqs = [ln.strip() for ln in p.read_text().split("\n") if ln.strip() and not ln.startswith("#")]
     real, kept = [], []
     old_handler = signal.signal(signal.SIGALRM, _alarm)
+    old_prof = signal.signal(signal.SIGPROF, _alarm)
     for q in reqs:
         # corpus requests run the real code in this process: bound each one in time (and the process is bounded in address
-        # space, see check.py), so that a change that makes the parser hang or balloon is reported, not suffered
-        signal.alarm(20)
+        # space, see check.py), so that a change that makes the parser hang or balloon is reported, not suffered. The bound is
+        # on CPU time (20 s) so that a loaded machine does not turn into an alarm; a generous wall-clock bound catches sleeping
+        signal.alarm(180)
+        signal.setitimer(signal.ITIMER_PROF, 20.0)
         try:
             a = replay.run_request(q)
         except _CorpusTimeout:
@@ -237,11 +240,13 @@ def run_corpus(ctx: Ctx) -> None:
         except Exception as e:  # noqa: BLE001
             a = "!!" + type(e).__name__
         finally:
+            signal.setitimer(signal.ITIMER_PROF, 0)
             signal.alarm(0)
         if a is not None:
             kept.append(q)
             real.append(a)
     signal.signal(signal.SIGALRM, old_handler)
+    signal.signal(signal.SIGPROF, old_prof)
     model = [m.replace("~", "") for m in run_driver(kept)]
     for q, a, m in zip(kept, real, model):
         ctx.dist["corpus_requests"] += 1
